@@ -24,6 +24,8 @@ func init() {
 			tableDeletePairing(r)
 			kvCompactionSourceNotHead(r)
 			compactionShape(r)
+			kvOldHeadReadOnly(r)
+			kvScanIndexRegistration(r)
 			bothKindsCompacted(r)
 			kvSizeBoundaryAgreement(r)
 		},
@@ -198,6 +200,29 @@ func bothKindsCompacted(r *core.Run) {
 		}
 		r.Check(prim, "both-kinds-compacted", fn.Name+" primary", site(r, fn.SSA.Pos()), "compacts the primary partition", "the primary partition is not compacted")
 		r.Check(back, "both-kinds-compacted", fn.Name+" backup", site(r, fn.SSA.Pos()), "compacts the backup partition", "the backup partition is never compacted: backup copies grow without bound under overwrite churn")
+		// unconditionally: every return of doCompaction is preceded by the compaction of a
+		// partition obtained from primary and of one obtained from backup
+		for _, kind := range []string{"primary", "backup"} {
+			kind := kind
+			isCompactionOf := func(in ssa.Instruction) bool {
+				c, ok := in.(*ssa.Call)
+				if !ok || c.Call.IsInvoke() {
+					return false
+				}
+				// a call (of the local closure or of a helper) whose argument is <kind>.PartitionByID(...)
+				for _, a := range c.Call.Args {
+					if pc, isCall := a.(*ssa.Call); isCall {
+						if o := core.CalleeObj(pc); o != nil && core.QualName(o) == partByID && core.LastField(pc.Call.Args[0]) == kind {
+							return true
+						}
+					}
+				}
+				return false
+			}
+			ret := core.ReachesReturnAvoiding(fn.SSA, isCompactionOf, func(*ssa.Return) bool { return true })
+			r.Check(ret == nil, "both-kinds-compacted", fn.Name+" "+kind+" on every path", site(r, fn.SSA.Pos()),
+				"every return is preceded by the compaction of the "+kind+" partition", "doCompaction can return without compacting the "+kind+" partition (an early return or guard): on members where the guard fires those copies are never compacted and grow without bound under churn")
+		}
 		// the fragment-level compaction is reached
 		reach := reachable(r.P, []*core.Fn{fn})
 		target := r.P.Fn("internal/dmap.(*fragment).Compaction")
